@@ -750,6 +750,11 @@ class EvolutionSuperOperator(SuperOperator, TimeDependent, Saveable):
 
         """
 
+        # the state in the frame this superoperator is in (the frame 
+        # frequencies multiply times in femtoseconds)
+        with energy_units("int"):
+            tdata = self._state_in_frame(target)
+
         if isinstance(time, numbers.Real):
             
             #
@@ -770,11 +775,11 @@ class EvolutionSuperOperator(SuperOperator, TimeDependent, Saveable):
                 if ob != 0:
                     oper_ven.manager.register_with_basis(ob, oper_ven)
                 oper_ven.data = numpy.tensordot(self.data[ti, :, :, :, :],
-                                                target.data)
+                                                tdata)
                 return oper_ven
             else:
                 target.data = numpy.tensordot(self.data[ti, :, :, :, :],
-                                              target.data)
+                                              tdata)
                 return target
             
         else:
@@ -803,7 +808,7 @@ class EvolutionSuperOperator(SuperOperator, TimeDependent, Saveable):
                 for tt in self.time.data:
                     rhot.data[k_i,:,:] = \
                     numpy.tensordot(self.data[k_i,:,:,:,:],
-                                    target.data)
+                                    tdata)
                     k_i += 1
                 
                 return rhot
@@ -835,13 +840,31 @@ class EvolutionSuperOperator(SuperOperator, TimeDependent, Saveable):
                 k_i = 0
                 for tt in ntime.data:
                     Ut = self.at(tt)
-                    rhot.data[k_i,:,:] = numpy.tensordot(Ut.data, target.data)
+                    rhot.data[k_i,:,:] = numpy.tensordot(Ut.data, tdata)
                     k_i += 1
                     
                 return rhot
             
             else:
                 raise Exception("Invalid argument: time")
+
+
+    def _state_in_frame(self, target):
+        """Data of a state in the frame this superoperator is in
+
+        The rotating frame rotates as exp(-i Omega t) with the absolute 
+        time t (this is what `convert_from_RWA` undoes). A superoperator 
+        in the rotating frame acts on states in the frame at the first time 
+        of its axis; the state submitted by the user is in the laboratory 
+        frame and is not changed. Called under internal units.
+
+        """
+        t0 = self.time.data[0]
+        if (not self.is_in_rwa) or (t0 == 0.0):
+            return target.data
+        HOmega = self.ham.get_RWA_skeleton()
+        Ut = numpy.exp(1j*HOmega*t0)
+        return numpy.outer(Ut, numpy.conj(Ut))*target.data
 
 
     def plot_element(self, elem, part="REAL", show=True):
@@ -975,6 +998,12 @@ class EvolutionSuperOperator(SuperOperator, TimeDependent, Saveable):
             # without saving, mode "jit" keeps the value at the current time
             single = (self.data.ndim == 4)
 
+            # the frame rotates with the absolute time: the state the 
+            # superoperator acts on is in the frame at the first time of 
+            # the axis (nothing to do for an axis which starts at zero)
+            Ut0 = numpy.exp(-sgn*1j*HOmega*self.time.data[0])
+            fin = numpy.outer(numpy.conj(Ut0), Ut0)
+
             for i, t in enumerate(self.time.data):
                 if single and (i != self.now):
                     continue
@@ -989,10 +1018,10 @@ class EvolutionSuperOperator(SuperOperator, TimeDependent, Saveable):
 
                         if single:
                             self.data[aa,bb,:,:] = \
-                                Ut[aa]*Uc[bb]*self.data[aa,bb,:,:]
+                                Ut[aa]*Uc[bb]*self.data[aa,bb,:,:]*fin
                         else:
                             self.data[i,aa,bb,:,:] = \
-                                Ut[aa]*Uc[bb]*self.data[i,aa,bb,:,:]
+                                Ut[aa]*Uc[bb]*self.data[i,aa,bb,:,:]*fin
 
                 
         if sgn == 1:
